@@ -43,7 +43,7 @@ def load_contracts(src):
     generic = {}
     for g in gens:
         if g.qual in LOOPS:
-            g.loops = dict(LOOPS[g.qual])
+            g.loops = {k: v for k, v in LOOPS[g.qual].items() if v.generic_ok}
         generic[g.qual] = g
         contract.GENERIC[g.qual] = g
         contract.REGISTRY.setdefault(g.qual, g)      # call sites of classes without a functional contract use the generic one
